@@ -255,7 +255,7 @@ func (dn Dnum) String() string {
 		if nd > 1 {
 			after = "." + digits[1:]
 		}
-		return sign + digits[:1] + after + "e" + strconv.Itoa(int(dn.exp-1))
+		return sign + digits[:1] + after + "e" + strconv.Itoa(int(dn.exp)-1)
 	}
 }
 
